@@ -5,7 +5,7 @@ TITLE = 'UTC entries round-trip; id/time conversion is anchored, monotone, inver
 LEVEL_TEXT = ('bounded symbolic verification of the real time map (tmap.c) with a 2-entry allocation hook: pairs kept across growth, stored pairs reproduced exactly, '
               'no access outside the arrays when the map is exactly full; UTC index construction and seek at internal seams')
 TRUSTED = ['cbmc 6.11 (IEEE-754 bit-blasting for the one division/multiplication/round of interp_i64)', 'hook JLS_VERIF_TMAP_ALLOC_INIT', 'harness/c12_tmap.c']
-OUTSIDE = ['"within one time tick of the exact value" and "inverse within one sample" for arbitrary magnitudes (floating-point error bounds; only segment containment is decided, with deltas < 2^VBITS)',
+OUTSIDE = ['"within one time tick of the exact value" and "inverse within one sample" for deltas >= 2^VBITS of the tick-accuracy rung, for extrapolation and for the single-pair sample-rate path',
            'more than NMAX pairs', 'extrapolation outside the stored range']
 EXPLANATION = ('O2: N<=NMAX pairs (symbolic strictly increasing ids, non-decreasing times, deltas < 2^VBITS) are added through the real jls_tmap_add (allocation 2 -> 4 -> 8); '
                'a symbolic stored pair is converted id->time (exact), time->id (exact when the time is unique) and an id inside a segment maps into the segment. '
